@@ -189,6 +189,20 @@ def replay(ctx, case):
 
 
 def run(ctx):
+    # deterministic walks from the template sweep: every rule template x coefficient coincidence as a START, followed by a
+    # fixed schedule of rules (so sequences also begin in the corners that random starts rarely reach)
+    texts = G.sweep_texts()
+    step = 6 if ctx.tier == "quick" else 1
+    for i, t in enumerate(texts[::step]):
+        if i % ctx.nshards != ctx.shard:
+            continue
+        ctx.count("evaluations")
+        ctx.count("sweep:walks")
+        w = Walk(ctx, t)
+        for k in range(6):
+            if not w.step(E.RULE_NAMES[(i + 3 * k) % len(E.RULE_NAMES)], i + k):
+                break
+        w.finish()
     from hypothesis import seed, settings
     from hypothesis.stateful import RuleBasedStateMachine, initialize, rule, run_state_machine_as_test
 
